@@ -324,6 +324,8 @@ def describing_side(chk, cfg):
     c02.check_config(chk, prog, prog.config)
     cr.check_register_type(chk, prog, prog.config, rule="R1.2")
     cr.check_from_registry(chk, prog, prog.config, rule="R1.4")
+    # the members' own (built-in) leaf types are described as the codec encodes them (C04's table)
+    c04.check_builtins(chk, prog, prog.config, facts.CONFIGS["default"])
     ev = shapes.ShapeEval(prog)
     for imp in prog.impls_of("scale_info::TypeInfo"):
         st = prog.ty(imp["self_ty"])
